@@ -98,7 +98,7 @@ def run_shard(spec, rec):
         cfg = nn.gen_cfg(rng, combo=combo, n_max=rng.choice((2, 4, 8, 12, 12, 40)), allow_not_random=False, nondyadic_u=0.15)
         if combo[1] == "optimal_comparison" and rng.random() < 0.5:
             # margins from 2^-20 to 1/2: u = 2/(2-v)
-            v = rng.choice((2.0 ** -20, 2.0 ** -16, 2.0 ** -12, 2.0 ** -8, 2.0 ** -4, 0.25, 0.5))
+            v = rng.choice((2.0 ** -20, 2.0 ** -16, 2.0 ** -12, 2.0 ** -8, 2.0 ** -4, 0.25, 0.5, 2.0 ** -30, 2.0 ** -40, 2.0 ** -51))
             cfg["u"] = 2 / (2 - v)
         if rng.random() < 0.5:
             x = runs_sample(rng, cfg)
